@@ -351,7 +351,7 @@ theorem T_C09_defaults_source :
     ts.map (fun t => (t.names.1, (t.dflt.src true))) = Gen.c09MethodDefaults ∧
       ts.map (fun t => (t.names.1, [t.names.1])) = Gen.c09Recursion ∧
       ts.map (fun t => (t.names.2, t.dflt.src false, [t.names.1])) ++ [("Shear", "-", ["shear"])] = Gen.c09ListDefaults ∧
-      Gen.c09ListCenterFirst = "center = self.center" := by
+      Gen.c09ListCenterFirst = "self.center" := by
   refine ⟨?_, ?_, ?_, ?_⟩ <;> rfl
 
 /-- an operation keeps its centre under `mirror` although its faces are swapped -/
